@@ -166,11 +166,11 @@ class Vertex(base.BaseObject):
             return self._QA_NB_INVALID
 
         if hit:
-            self._CACHE_STATS[self.uid][0] += 1
+            self._CACHE_STATS.setdefault(self.uid, [0, 0, 0, 0])[0] += 1
 
             return self.__qa_nb_cache[args]
 
-        self._CACHE_STATS[self.uid][1] += 1
+        self._CACHE_STATS.setdefault(self.uid, [0, 0, 0, 0])[1] += 1
         return self._QA_NB_INVALID
 
     def _qa_neighbors_invalidate(self):
@@ -190,7 +190,7 @@ class Vertex(base.BaseObject):
         self.__qa_nb_cache = {}
         if not self.NEIGHBOR_CACHING:
             return
-        self._CACHE_STATS[self.uid][2] += 1
+        self._CACHE_STATS.setdefault(self.uid, [0, 0, 0, 0])[2] += 1
 
     def _qa_neighbors_insert(self, answer, *args):
         """
@@ -211,7 +211,7 @@ class Vertex(base.BaseObject):
         except TypeError:
             # unhashable argument; see _qa_neighbors_get
             return
-        self._CACHE_STATS[self.uid][3] += 1
+        self._CACHE_STATS.setdefault(self.uid, [0, 0, 0, 0])[3] += 1
 
     def add_to_link(self, link: Link):
         """
